@@ -20,7 +20,7 @@ sys.path.insert(0, HERE)
 import z3  # noqa: E402
 from vc import build, ir, symex, smt, replay  # noqa: E402
 
-CONTRACT_MODULES = ['calendar', 'period', 'clock', 'registrar', 'timezone', 'zoned']
+CONTRACT_MODULES = ['calendar', 'period', 'clock', 'registrar', 'timezone', 'zoned', 'ruleday']
 
 
 class Run:
@@ -170,6 +170,14 @@ def triage(R):
                     replayed = any(v is False for _, v in res)
                 except Exception as e:
                     rep['post_eval_error'] = repr(e)
+        if not replayed and getattr(R, 'custom_replay', None) is not None:
+            try:
+                cr = R.custom_replay(R, o)
+            except Exception as e:
+                cr = None
+                rep['custom_replay_error'] = repr(e)
+            if cr is not None:
+                replayed, rep['custom_replay'] = cr
         if not replayed and R.refutation:
             rep['refuter_found'] = R.refutation
             replayed = True
